@@ -95,7 +95,8 @@ pub fn run_child(spec: RunSpec, scen: ScenFn, cpu: usize) -> RunOut {
                 } else {
                     "<non-string panic>".to_string()
                 };
-                let line = format!("{loc}: {msg}");
+                let bt = if std::env::var("VERIF_BACKTRACE").is_ok() { format!("\n{}", std::backtrace::Backtrace::force_capture()) } else { String::new() };
+                let line = format!("{loc}: {msg}{bt}");
                 let _ = PANICS.try_with(|p| p.borrow_mut().push(line));
             }));
             let rt = tokio::runtime::Builder::new_current_thread()
